@@ -7,10 +7,13 @@
     text_roundtrip_xml_partial attr_roundtrip_xml_partial
     reread_nostrip reread_strip strip_commutes_escape site_yields_plain markup_add_escapes
     structure_preserved render_stream_ok
+    attrs_site_partial attrs_site_none_removes attrs_site_others_untouched attrs_blank_dropped
+    script_text_is_raw div_text_is_escaped attr_name_not_escaped
     text_cr_not_recovered_xml attr_lf_not_recovered_xml control_char_not_wellformed_xml
 -/
 import Genshi.Lemmas.Subst
 import Genshi.Lemmas.SubstTmpl
+import Genshi.Lemmas.SubstAttrs
 namespace Genshi.Props.C01
 open Genshi.Escape Genshi.Str Genshi.Subst
 
@@ -321,6 +324,100 @@ theorem markup_add_escapes (env : Env) (mk : List Char) (a : Atom)
     SafeOk.append hmk o1, ?_⟩
   rw [unescape_append_safe hmk o1, o2]; rfl
 
+/-! ## attribute dictionaries (`py:attrs`) -/
+
+theorem mem_evalAttrs (env : Env) (attrib : List (Subst.Name × AttrSpec)) (n : Subst.Name) (v : List Char) :
+    (n, v) ∈ evalAttrs env attrib ↔ ∃ sp, (n, sp) ∈ attrib ∧ attrValue env sp = some v := by
+  simp only [evalAttrs, List.mem_filterMap]
+  constructor
+  · rintro ⟨⟨k, sp⟩, hq, hqv⟩
+    cases hv : attrValue env sp with
+    | none => simp [hv] at hqv
+    | some w =>
+      simp only [hv, Option.map_some, Option.some.injEq, Prod.mk.injEq] at hqv
+      obtain ⟨rfl, rfl⟩ := hqv
+      exact ⟨sp, hq, hv⟩
+  · rintro ⟨sp, hq, hv⟩
+    exact ⟨(n, sp), hq, by simp [hv]⟩
+
+theorem items_map_names (env : Env) (items : List (Subst.Name × Atom)) :
+    (items.map fun (p : Subst.Name × Atom) => (p.1, (stripValue (evalAtom env p.2)).map AttrSpec.static)).map (·.1)
+      = items.map (·.1) := by
+  simp [List.map_map, Function.comp_def]
+
+/-- `py:attrs`, full statement (FALSE for the code, witness `attrs_blank_dropped`):
+      a name whose value is not `None` carries that value, surrounding white space trimmed.
+    Proved with the excluding hypothesis: the trimmed value is not empty.
+    (The names of the expression are distinct, as the keys of a dictionary are.) -/
+theorem attrs_site_partial (env : Env) (attrs : List (Subst.Name × AttrSpec)) (items : List (Subst.Name × Atom))
+    (n : Subst.Name) (a : Atom) (hmem : (n, a) ∈ items) (hnd : (items.map (·.1)).Nodup)
+    (hv : evalAtom env a ≠ .none) (hnb : pyStrip (pyStr (evalAtom env a)) ≠ []) :
+    (n, pyStrip (pyStr (evalAtom env a))) ∈ evalAttrs env (applyPyAttrs env attrs items) := by
+  have hsv : stripValue (evalAtom env a) = some (pyStrip (pyStr (evalAtom env a))) := by
+    have hne : (pyStrip (pyStr (evalAtom env a))).isEmpty = false := by
+      cases h : pyStrip (pyStr (evalAtom env a)) with
+      | nil => exact absurd h hnb
+      | cons _ _ => rfl
+    cases hx : evalAtom env a with
+    | none => exact absurd hx hv
+    | str s => simp only [hx] at hne; simp [stripValue, hne]
+    | markup s => simp only [hx] at hne; simp [stripValue, hne]
+    | num s => simp only [hx] at hne; simp [stripValue, hne]
+    | obj s h => simp only [hx] at hne; simp [stripValue, hne]
+  rw [mem_evalAttrs]
+  refine ⟨.static (pyStrip (pyStr (evalAtom env a))), ?_, rfl⟩
+  unfold applyPyAttrs
+  have hne : items.isEmpty = false := by
+    cases items with
+    | nil => cases hmem
+    | cons _ _ => rfl
+  simp only [hne, Bool.false_eq_true, ↓reduceIte]
+  apply gOr_sets
+  · exact List.mem_map.mpr ⟨(n, a), hmem, by simp [hsv]⟩
+  · rw [items_map_names]; exact hnd
+
+/-- `None` — and, as the code is, a value that is blank after trimming — removes the attribute. -/
+theorem attrs_site_none_removes (env : Env) (attrs : List (Subst.Name × AttrSpec)) (items : List (Subst.Name × Atom))
+    (n : Subst.Name) (a : Atom) (hmem : (n, a) ∈ items) (hv : stripValue (evalAtom env a) = none) :
+    ∀ p ∈ evalAttrs env (applyPyAttrs env attrs items), p.1 ≠ n := by
+  intro p hp hpn
+  obtain ⟨k, v⟩ := p
+  simp only at hpn
+  subst hpn
+  rw [mem_evalAttrs] at hp
+  obtain ⟨sp, hsp, _⟩ := hp
+  unfold applyPyAttrs at hsp
+  have hne : items.isEmpty = false := by
+    cases items with
+    | nil => cases hmem
+    | cons _ _ => rfl
+  simp only [hne, Bool.false_eq_true, ↓reduceIte] at hsp
+  exact gOr_removes attrs _ k (List.mem_map.mpr ⟨(k, a), hmem, by simp [hv]⟩) _ hsp rfl
+
+/-- attributes the expression does not name are untouched -/
+theorem attrs_site_others_untouched (env : Env) (attrs : List (Subst.Name × AttrSpec))
+    (items : List (Subst.Name × Atom)) (n : Subst.Name) (v : List Char) (hno : ∀ p ∈ items, p.1 ≠ n) :
+    (n, v) ∈ evalAttrs env (applyPyAttrs env attrs items) ↔ (n, v) ∈ evalAttrs env attrs := by
+  unfold applyPyAttrs
+  split
+  · rfl
+  · rw [mem_evalAttrs, mem_evalAttrs]
+    have hno' : ∀ p ∈ items.map (fun (p : Subst.Name × Atom) =>
+        (p.1, (stripValue (evalAtom env p.2)).map AttrSpec.static)), p.1 ≠ n := by
+      intro p hp
+      obtain ⟨q, hq, rfl⟩ := List.mem_map.mp hp
+      exact hno q hq
+    constructor
+    · rintro ⟨sp, h1, h2⟩
+      exact ⟨sp, (gOr_untouched attrs _ n sp hno').mp h1, h2⟩
+    · rintro ⟨sp, h1, h2⟩
+      exact ⟨sp, (gOr_untouched attrs _ n sp hno').mpr h1, h2⟩
+
+/-- witness (finding C01-attrs-blank-dropped): `<a py:attrs="{'title': ' '}"/>` has no `title` -/
+theorem attrs_blank_dropped :
+    renderNode [] (.el ['a'] [] (some [(['t', 'i', 't', 'l', 'e'], .lit (.str [' ']))]) [])
+      = [.start ['a'] [], .end_ ['a']] := by decide
+
 /-! ## the composition -/
 
 /-- **structure_preserved.**  For every template of the grammar (a tree whose leaves are
@@ -367,6 +464,28 @@ theorem render_stream_ok (m : Method) (T : List Node) (env : Env)
   have := hs.closed.1 []
   simpa [emptyOkGo] using this
 
+/-! ## the documented exception, and why the hypotheses are there -/
+
+/-- inside `script` under html nothing is escaped (the exception the property states) -/
+theorem script_text_is_raw :
+    serialize .html true [.start ['s', 'c', 'r', 'i', 'p', 't'] [], .text ['a', '<', 'b'] false,
+                          .end_ ['s', 'c', 'r', 'i', 'p', 't']]
+      = ['<', 's', 'c', 'r', 'i', 'p', 't', '>', 'a', '<', 'b', '<', '/', 's', 'c', 'r', 'i', 'p', 't', '>'] := by
+  decide
+
+/-- … and outside it the same text is escaped -/
+theorem div_text_is_escaped :
+    serialize .html true [.start ['d', 'i', 'v'] [], .text ['a', '<', 'b'] false, .end_ ['d', 'i', 'v']]
+      = ['<', 'd', 'i', 'v', '>', 'a', '&', 'l', 't', ';', 'b', '<', '/', 'd', 'i', 'v', '>'] := by
+  decide
+
+/-- attribute *names* are written as they are: a `py:attrs` key is not a value (the property
+    speaks of values; names must be names — hypothesis `attrNameOkB`) -/
+theorem attr_name_not_escaped :
+    serialize .xml false [.start ['a'] [(['x', '>', '<', 'b'], ['1'])], .end_ ['a']]
+      = ['<', 'a', ' ', 'x', '>', '<', 'b', '=', '"', '1', '"', '/', '>'] := by
+  decide
+
 /-! ## non-vacuity -/
 example : readText (emitText .html ['<', 's', 'c', 'r', 'i', 'p', 't', '>', '&'] ++ ['<', '/', 'p', '>'])
     = ['<', 's', 'c', 'r', 'i', 'p', 't', '>', '&'] := by decide
@@ -374,5 +493,29 @@ example : readAttr (emitAttr ['"', '>', '<', 'b', ' ', 'o', 'n', 'x', '=', '"'] 
     = ['"', '>', '<', 'b', ' ', 'o', 'n', 'x', '=', '"'] := by decide
 example : emitAttr ['"', '&'] = ['&', '#', '3', '4', ';', '&', 'a', 'm', 'p', ';'] := by decide
 example : readTextXml (emitText .xml ['a', '&', 'l', 't', ';', 'é']) = some ['a', '&', 'l', 't', ';', 'é'] := by decide
+
+/-- a template with an interpolated attribute, `py:attrs`, a loop, a `Markup` operator and a
+    builder call: inside the hypotheses of `structure_preserved` for all methods -/
+def exampleT : List Node :=
+  [.el ['d', 'i', 'v'] [(['i', 'd'], .interp [.lit ['x', '-'], .expr (.val (.one (.str ['"', '>', '<']))) ])]
+      (some [(['t', 'i', 't', 'l', 'e'], .lit (.str [' ', '<', 'b', '>', ' ']))])
+      [.loop (.val (.many [.str ['<', 'i', '>'], .num ['4', '2'], .none]))
+         [.el ['l', 'i'] [] none [.site (.v (.var 0))]],
+       .site (.add ['&', 'a', 'm', 'p', ';'] (.lit (.str ['<', '/', 'd', 'i', 'v', '>']))),
+       .site (.build (.el ['b'] [(['c', 'l', 'a', 's', 's'], .lit (.str ['"']))] [.arg (.val (.one (.str ['&'])))])),
+       .el ['b', 'r'] [] none []]]
+
+example : nodesOkB .xml exampleT = true ∧ nodesOkB .xhtml exampleT = true ∧ nodesOkB .html exampleT = true ∧
+    listOk [] exampleT = true := by decide
+
+example : readDoc .html (serialize .html false (renderList [] exampleT)) =
+    some [.start ['d', 'i', 'v'] [(['i', 'd'], ['x', '-', '"', '>', '<']), (['t', 'i', 't', 'l', 'e'], ['<', 'b', '>'])],
+          .start ['l', 'i'] [], .text ['<', 'i', '>'] false, .end_ ['l', 'i'],
+          .start ['l', 'i'] [], .text ['4', '2'] false, .end_ ['l', 'i'],
+          .start ['l', 'i'] [], .end_ ['l', 'i'],
+          .text ['&', '<', '/', 'd', 'i', 'v', '>'] false,
+          .start ['b'] [(['c', 'l', 'a', 's', 's'], ['"'])], .text ['&'] false, .end_ ['b'],
+          .start ['b', 'r'] [], .end_ ['b', 'r'],
+          .end_ ['d', 'i', 'v']] := by decide
 
 end Genshi.Props.C01
